@@ -61,6 +61,9 @@ impl MT292 {
             });
         }
 
+        // Verify all content is consumed
+        verify_parser_complete(&parser)?;
+
         Ok(MT292 {
             field_20,
             field_21,
